@@ -82,7 +82,25 @@ func resolverE2E(c rCase, history bool, seq bool) (map[int]string, *e2eRound2, e
 				pkgs = append(pkgs, SPkg{Name: p.Name, Version: p.Version, Origin: p.Origin, Deps: p.Deps, Provides: p.Provides, InstallIf: p.InstallIf, Priority: p.Priority, OnlyArch: []string{a.Arch}})
 			}
 		}
-		return BuildSynthRepo(pkgs, archNames).WriteTo(filepath.Join(work, fmt.Sprintf("idx%d", i)))
+		key := BuildSynthRepo(pkgs, archNames).WriteTo(filepath.Join(work, fmt.Sprintf("idx%d", i)))
+		// records whose architecture FIELD is not the architecture of their index: that index is written from the
+		// records themselves (a resolution fetches no package; same writer as the republished indexes below)
+		for _, a := range fam {
+			if i >= len(a.Indexes) {
+				continue
+			}
+			odd := false
+			for _, p := range a.Indexes[i].Pkgs {
+				odd = odd || p.A != ""
+			}
+			if odd {
+				f := filepath.Join(work, fmt.Sprintf("idx%d", i), a.Arch, "APKINDEX.tar.gz")
+				if err := os.WriteFile(f, glueIndexBytes(a.Arch, i, a.Indexes[i].Pkgs, 0), 0o644); err != nil {
+					panic(err)
+				}
+			}
+		}
+		return key
 	}
 	for i := 0; i < nIdx; i++ {
 		dir := filepath.Join(work, fmt.Sprintf("idx%d", i))
